@@ -93,6 +93,10 @@ def boundary_lines(ctx):
     add('integer', 0, "10 PRINT \"A\"\r\n20 END\r\n")
     add('integer', 0, "10 REM\n20 REM  X \n30 PRINT \"\"\n")
     add('integer', 0, "10 PRINT \"\n")
+    # a program larger than the memory it lives in: refused, or listed whole - never listed in part
+    big = ''.join(f"{n} REM " + 'X' * 110 + chr(10) for n in range(1, 601))
+    add('integer', 0, big)
+    add('integer', 0, ''.join(f"{n} REM " + 'X' * 110 + chr(10) for n in range(1, 560)))
     add('merlin', 0, "* \n*\n;   \n LDA #$00 ;  x  \nLABEL\nLABEL2 RTS\n\n ASC \"a b  c\"\n")
     add('merlin', 0, " LDA #' '\n ASC ' ; not a comment'\n")
     for src in langgen.merlin_boundary_sources():
